@@ -190,7 +190,7 @@ def _getitem(x, key, orig_key):
             indptr = np.empty(shape[0] + 1, dtype=x.indptr.dtype)
             indptr[0] = 0
             np.cumsum(np.bincount(uncompressed, minlength=shape[0]), out=indptr[1:])
-            indices %= size
+            indices = (indices % size).astype(indices.dtype, copy=False)
 
     arg = (data, indices, indptr)
 
